@@ -4,6 +4,8 @@
                              of every nodal row is the net flow at its recorded (step, node)
   C17  StochasticBounds.lean the optimisation meta-theorems from "the solver returns an optimal point of the robust / two-stage problem" to the
                              inequalities of the statement (robust worst case bounds; EEV <= two-stage <= wait-and-see; = deterministic)
+  C13  MinorWeights.lean     from the contract of __extend_mapping_to_minor_grid__ (factor = dt / coarse dt x own factor) and of the coarse grid
+                             (coarse dt = sum of minor dt): factors of a coarse step add up to the own factor; constant rate
   C04  ValueAccounting.lean  from the assembly contract (variables of asset a = block [off a, off a + sz a)) and the dcf contract the per-asset
                              cash-flow totals add up to -(c . x), the reported value
 
@@ -22,7 +24,9 @@ HERE = os.path.join(os.path.dirname(os.path.abspath(__file__)), 'lean')
 LEMMAS = {'C01': [('NodalRow.lean', 'C01.lemma.nodal_row_is_net_flow_at_recorded_node_and_step', 'lean:NodalRow.nodal_row_is_net_flow')],
           'C04': [('ValueAccounting.lean', 'C04.lemma.asset_cash_flow_totals_add_up_to_the_value', 'lean:ValueAccounting.value_is_sum_of_asset_cash_flows')],
           'C13': [('PeriodicMerge.lean', 'C13.lemma.merged_problem_evaluates_like_fine_problem_with_equalities', 'lean:PeriodicMerge.periodic_merge_evaluates_like_fine_problem_with_equalities'),
-                  ('PeriodicMerge.lean', 'C13.lemma.average_of_equal_bounds_is_the_common_bound', 'lean:PeriodicMerge.average_of_equal_bounds')],
+                  ('PeriodicMerge.lean', 'C13.lemma.average_of_equal_bounds_is_the_common_bound', 'lean:PeriodicMerge.average_of_equal_bounds'),
+                  ('MinorWeights.lean', 'C13.lemma.minor_step_factors_add_up_to_the_rows_own_factor', 'lean:MinorWeights.minor_factors_add_up_to_own_factor'),
+                  ('MinorWeights.lean', 'C13.lemma.dispatch_rate_is_constant_within_a_coarse_step', 'lean:MinorWeights.minor_rate_is_constant')],
           'C14': [('SplitBounds.lean', 'C14.lemma.uncoupled_split_is_an_unsplit_optimum_with_the_summed_value', 'lean:SplitBounds.uncoupled_split_is_optimal'),
                   ('SplitBounds.lean', 'C14.lemma.split_never_exceeds_unsplit_when_coupled_by_storages_only', 'lean:SplitBounds.split_never_exceeds_unsplit')],
           'C18': [('Supergradient.lean', 'C18.lemma.lagrange_multiplier_of_the_nodal_row_is_a_supergradient', 'lean:Supergradient.reoptimised_value_at_most_value_plus_price_times_injection')],
